@@ -584,6 +584,11 @@ func (vc *VC) makeIface(x Value, t types.Type) Value {
 	}
 	vc.declareFun(bn, sorts, "Int")
 	boxed := sApp(bn, x.C...)
+	if isStringT(t) {
+		// a string in an interface is identified by its value (map keys, ==), not by where its
+		// bytes live: box it as its string identity
+		boxed = vc.strId(x)
+	}
 	bt := vc.define("boxed", "Int", boxed)
 	for i, c := range cs {
 		un := sym(fmt.Sprintf("unbox:%s:%d", typeKey(t), i))
